@@ -161,6 +161,7 @@ func generatorDisagrees(pc pcase, in []pobj) string {
 	if pc.Helpers {
 		want["never:partial"]++
 	}
+	want["never:notes"] += len(pc.XNotes)
 	got := map[string]int{}
 	for _, o := range in {
 		got[o.Dest]++
@@ -199,8 +200,15 @@ func (m *minimiser) classes(pc pcase) map[string]bool {
 }
 
 func valid(pc pcase) bool {
-	if len(pc.Files) == 0 && !pc.Notes && !pc.Helpers && !pc.SubOn {
+	if len(pc.Files) == 0 && !pc.Notes && !pc.Helpers && !pc.SubOn && len(pc.XNotes) == 0 {
 		return false
+	}
+	locs := map[string]bool{}
+	for _, n := range pc.XNotes {
+		if locs[n.Loc] || (n.Loc == "top" && pc.Notes) || (n.Loc == "sub-top" && pc.SubNotes) {
+			return false // two files of one name
+		}
+		locs[n.Loc] = true
 	}
 	for _, fs := range [][]fileSpec{pc.Files, pc.Sub} {
 		for _, f := range fs {
@@ -245,7 +253,16 @@ func (m *minimiser) minimise(pc pcase, class string) pcase {
 		changed = false
 		// flags and extra files
 		for _, edit := range []func(*pcase){
-			func(p *pcase) { p.SubOn, p.Sub, p.SubNotes = false, nil, false },
+			func(p *pcase) {
+				p.SubOn, p.Sub, p.SubNotes = false, nil, false
+				var keep []notesSpec
+				for _, n := range p.XNotes {
+					if !n.sub() {
+						keep = append(keep, n)
+					}
+				}
+				p.XNotes = keep
+			},
 			func(p *pcase) { p.SubFlag = false },
 			func(p *pcase) { p.SubNotes = false },
 			func(p *pcase) { p.Sub = nil },
@@ -256,6 +273,24 @@ func (m *minimiser) minimise(pc pcase, class string) pcase {
 			edit(&c)
 			if try(c) {
 				changed = true
+			}
+		}
+		// NOTES.txt files: drop, then towards the resource-looking content
+		for i := 0; i < len(cur.XNotes); i++ {
+			c := cur.clone()
+			c.XNotes = append(c.XNotes[:i], c.XNotes[i+1:]...)
+			if try(c) {
+				changed = true
+				i--
+			}
+		}
+		for i := range cur.XNotes {
+			if cur.XNotes[i].Body != "resource" {
+				c := cur.clone()
+				c.XNotes[i].Body = "resource"
+				if try(c) {
+					changed = true
+				}
 			}
 		}
 		// whole files
@@ -513,7 +548,7 @@ func runPartition(c *core.Ctx) {
 
 	full := []int{dCM, dSvc, dNS, dDep, dWidget, dHook, dHookU, dHookKU, dHookKK, dHookW, dComment, dBlank, dKeep, dCMTail, dHookTail}
 	if thorough {
-		full = append(full, dGadget, dHookUK, dWsBlank, dAnno, dCMKeep, dIndent)
+		full = append(full, dGadget, dHookUK, dWsBlank, dAnno, dCMKeep, dIndent, dHookEmpty, dHookNull)
 	}
 	r8 := []int{dCM, dSvc, dNS, dWidget, dHook, dHookU, dComment, dKeep}
 	r5 := []int{dCM, dSvc, dWidget, dHook, dHookU}
@@ -661,8 +696,87 @@ func runPartition(c *core.Ctx) {
 	})
 
 	// U: real install + uninstall on the simulated cluster (create / delete requests as the server saw them)
+	// H: the hook-annotation alphabet, including a hook annotation that is present but names nothing
+	// (exactly empty, null, whitespace only): such a document names no known event and is dropped
+	part("H", func() {
+		alpha := []int{dCM, dSvc, dHook, dHookU, dHookEmpty, dHookNull}
+		if thorough {
+			alpha = append(alpha, dHookKU, dHookTilde, dHookWs)
+		}
+		eachFile("templates/a.yaml", alpha, 1, 3, allJoin, no, no, no, func(f fileSpec) {
+			e.do(pcase{Files: []fileSpec{f}})
+		})
+		// the same documents spread over two files, and inside a subchart
+		hs := []int{dHookEmpty, dHookNull}
+		if thorough {
+			hs = append(hs, dHookTilde, dHookWs)
+		}
+		for _, h := range hs {
+			for _, o := range []int{dCM, dHook, dHookU, dHookEmpty, dHookNull} {
+				one := func(name string, t int) fileSpec { return fileSpec{Name: name, Docs: []int{t}} }
+				e.do(pcase{Files: []fileSpec{one("templates/a.yaml", h), one("templates/b.yaml", o)}})
+				e.do(pcase{Files: []fileSpec{one("templates/a.yaml", o), one("templates/b.yaml", h)}})
+				e.do(pcase{Files: []fileSpec{one("templates/a.yaml", o)}, SubOn: true, Sub: []fileSpec{one("templates/x.yaml", h)}})
+			}
+		}
+		c.Bound("partition.H", fmt.Sprintf("hook-annotation alphabet: 1 file x 1..3 docs over %d types (hook value known / unknown / \"\" / null%s) x %d joiners; 2 files and subchart placements of the empty-valued hooks",
+			len(alpha), map[bool]string{true: " / ~ / whitespace / known+unknown", false: ""}[thorough], len(allJoin)))
+	})
+
+	// N: NOTES.txt at every location (templates/, a sub-directory of templates/, and both in a subchart) with every
+	// kind of content (prose, generated steps = a mapping, a resource-looking mapping, a hook-looking mapping):
+	// nothing a NOTES.txt says may reach the manifest or the hook list
+	part("N", func() {
+		bases := []fileSpec{{Name: "templates/a.yaml", Docs: []int{dCM}}, {Name: "templates/a.yaml", Docs: []int{dHook}}}
+		if thorough {
+			bases = fileVariants("templates/a.yaml", r8, 1, 2, []int{jPlain}, no, no, no)
+		}
+		locs := []string{"top", "nested", "sub-top", "sub-nested"}
+		bodies := []string{"", "prose", "steps", "resource", "hook"} // "" = no file at this location
+		pick := make([]int, len(locs))
+		var rec func(i int, fn func([]notesSpec))
+		rec = func(i int, fn func([]notesSpec)) {
+			if i == len(locs) {
+				var ns []notesSpec
+				for k, b := range pick {
+					if bodies[b] != "" {
+						ns = append(ns, notesSpec{Loc: locs[k], Body: bodies[b]})
+					}
+				}
+				fn(ns)
+				return
+			}
+			for b := range bodies {
+				pick[i] = b
+				rec(i+1, fn)
+			}
+		}
+		rec(0, func(ns []notesSpec) {
+			if len(ns) == 0 {
+				return
+			}
+			sub := false
+			for _, n := range ns {
+				sub = sub || n.sub()
+			}
+			for _, flag := range yesNo {
+				if flag && !sub {
+					continue
+				}
+				for _, b := range bases {
+					e.do(pcase{Files: []fileSpec{b}, XNotes: ns, SubOn: sub, SubFlag: flag})
+				}
+				e.do(pcase{XNotes: ns, SubOn: sub, SubFlag: flag}) // a chart with nothing but notes
+				if sub {
+					e.do(pcase{Files: []fileSpec{bases[0]}, XNotes: ns, SubOn: true, Sub: []fileSpec{{Name: "templates/x.yaml", Docs: []int{dSvc}}}, SubFlag: flag})
+				}
+			}
+		})
+		c.Bound("partition.N", fmt.Sprintf("NOTES.txt at {templates/, templates/sub/, subchart templates/, subchart templates/sub/} each {absent, prose, steps-mapping, resource, hook} x SubNotes flag x %d base files (+ none, + subchart template)", len(bases)))
+	})
+
 	part("U", func() {
-		alpha := []int{dCM, dSvc, dNS, dDep, dWidget, dKeep, dHook, dHookU}
+		alpha := []int{dCM, dSvc, dNS, dDep, dWidget, dKeep, dHook, dHookU, dHookEmpty, dHookNull}
 		maxDocs := 3
 		if thorough {
 			maxDocs = 4
@@ -682,6 +796,16 @@ func runPartition(c *core.Ctx) {
 			}
 		}
 		e.do(pcase{Files: []fileSpec{as[0]}, Notes: true, Helpers: true, SubOn: true, SubNotes: true, Sub: []fileSpec{{Name: "templates/x.yaml", Docs: []int{dSvc}}}, Real: true})
+		// NOTES.txt at every location with every content, one at a time and all locations together
+		for _, body := range []string{"prose", "steps", "resource", "hook"} {
+			var all []notesSpec
+			for _, loc := range []string{"top", "nested", "sub-top", "sub-nested"} {
+				n := notesSpec{Loc: loc, Body: body}
+				all = append(all, n)
+				e.do(pcase{Files: []fileSpec{as[0]}, XNotes: []notesSpec{n}, SubOn: n.sub(), Real: true})
+			}
+			e.do(pcase{Files: []fileSpec{as[0]}, XNotes: all, SubOn: true, Sub: []fileSpec{{Name: "templates/x.yaml", Docs: []int{dSvc}}}, Real: true})
+		}
 		c.Bound("partition.U", fmt.Sprintf("real install+uninstall: 1 file x 1..%d docs over %d types; 2 files x 1..2 docs over %d types", maxDocs, len(alpha), len(two)))
 	})
 
